@@ -217,7 +217,7 @@ fn case_tree(e: &E) -> Outcome {
 }
 
 fn case_regress(doc: &serde_json::Value) -> Outcome {
-    let Some(g) = G::from_json(&doc["g"]) else { return Outcome::Broken("bad regress file".into()) };
+    let Some(g) = super::common::grammar_from_doc(doc) else { return Outcome::Broken("bad regress file".into()) };
     let text = print_minimal(&g);
     let mut c = Case::new(text.clone());
     c.evals = 0;
@@ -273,13 +273,7 @@ pub fn run(tier: Tier, seed: u64) -> i32 {
 }
 
 pub fn replay(doc: &serde_json::Value) -> i32 {
-    let r = if doc["detail"].get("g").is_some() {
-        case_regress(&doc["detail"])
-    } else if doc.get("g").is_some() {
-        case_regress(doc)
-    } else {
-        Outcome::Broken("no grammar in replay file".into())
-    };
+    let r = if doc.get("detail").is_some() { case_regress(&doc["detail"]) } else { case_regress(doc) };
     match r {
         Outcome::Fail(f) => {
             println!("VIOLATION property=C02 replay=(given) {}", f.msg);
